@@ -959,28 +959,28 @@ Print Assumptions C07_forward_total.
 
 (* ------------------------------------------------------------------------------------------ *)
 (* the hypotheses are satisfiable                                                              *)
-From CG Require Props.C13.
+From CG Require Spec.ZoneTables.
 
 (* the zone tables exported from zoneinfo for C13 (Los Angeles, Havana, Chatham, Troll, St John's)
    meet the zone hypothesis of this file *)
 Example zone_hypothesis_satisfiable :
   forallb zone_spread_ok
-          [CG.Props.C13.la; CG.Props.C13.havana; CG.Props.C13.chatham; CG.Props.C13.troll;
-           CG.Props.C13.st_johns_2005; utc_zone] = true.
+          [CG.Spec.ZoneTables.la; CG.Spec.ZoneTables.havana; CG.Spec.ZoneTables.chatham; CG.Spec.ZoneTables.troll;
+           CG.Spec.ZoneTables.st_johns_2005; utc_zone] = true.
 Proof. vm_compute. reflexivity. Qed.
 
 (* every other week on Monday and Thursday at 09:00 Los Angeles time for one hour, one excluded
    start, anchored on 2024-01-01 *)
 Definition ex_weekly : rule :=
   mkRule Weekly 2 [(0, None); (3, None)] [] [] [] [1705338000] (Some 1704096000) 32400 3600
-         CG.Props.C13.la.
+         CG.Spec.ZoneTables.la.
 (* the second and the last working day of every month at 02:00 for 25 hours (BYSETPOS) *)
 Definition ex_setpos : rule :=
   mkRule Monthly 1 [(0, None); (1, None); (2, None); (3, None); (4, None)] [] [] [2; -1] []
-         (Some 1704096000) 7200 90000 CG.Props.C13.la.
+         (Some 1704096000) 7200 90000 CG.Spec.ZoneTables.la.
 (* the last Friday of March and November, every year *)
 Definition ex_nth : rule :=
-  mkRule Yearly 1 [(4, Some (-1))] [] [3; 11] [] [] (Some 1704096000) 7200 3600 CG.Props.C13.la.
+  mkRule Yearly 1 [(4, Some (-1))] [] [3; 11] [] [] (Some 1704096000) 7200 3600 CG.Spec.ZoneTables.la.
 
 Lemma ex_weekly_ok : lists_ok ex_weekly /\ no_setpos ex_weekly /\ 0 < r_interval ex_weekly /\
   rule_accepted ex_weekly /\ zone_spread_ok (r_zone ex_weekly) = true /\ 0 <= r_dur ex_weekly.
